@@ -3,8 +3,8 @@
    (the most general generator that is deterministic in its seed).  rand's contract
    (lo <= value < hi for lo < hi) is the hypothesis gen_in_range, NOT an axiom.
    Property theorems only; proofs in proofs/EvalProof.v. *)
-From DTR Require Import Prelude I64 Ast FramedMap Parser Eval.
-From DTR.proofs Require Import EvalProof LiteralProof.
+From DTR Require Import Prelude I64 Ast FramedMap Lexer Parser Bind Eval Stmt Iter Script WfSpec.
+From DTR.proofs Require Import EvalProof LiteralProof IterLogProof RunRefineE IterLogProofE VectorProof OutputsRunProof VarsRunProof RandomRunProof.
 Local Open Scope Z_scope.
 
 (* random(e): evaluate e; below 2 an error and no draw; otherwise exactly ONE draw, from [1, n) *)
@@ -85,6 +85,150 @@ Theorem C17_replay_after_reset : forall G c1 e1 c2 e2 l1 l2,
   snd (literalize G c1 e1 []) = snd (literalize G c2 e2 []).
 Proof. exact replay_after_reset. Qed.
 
+(* RUN LEVEL, through error items - what one call of next() does to the generator's history: it is new draws on top of the old history, or on top of the EMPTY history when a resetRandom; was executed on the way; the new draws are those of the statements executed and of the row's entries and then - only when an answer of the right length arrived - those of the declared signals, in declaration order, up to and including the first one that fails; a failed call and an answer of the wrong length evaluate no declared signal *)
+Theorem C17_history_of_every_call :
+  forall (G : gen) (DE : Type) (D : driver DE) (w_default : bool) (tc : testcase) 
+  (fuel : nat) (st st' : istate),
+  VectorProof.next_state DE (inext G DE D w_default tc fuel st) = Some st' ->
+  exists (st1 : istate) (prog decl : list (Z * Z)),
+  (get_row G tc fuel st = GRNone st1 \/
+  (exists er : evaluated_row, get_row G tc fuel st = GRRow er st1) \/
+  (exists x : xerr, get_row G tc fuel st = GRErr x st1)) /\
+  crng (i_ctx st1) = prog ++ (if trace_resets (stmt_trace G fuel st) then [] else crng (i_ctx st)) /\
+  crng (i_ctx st') = decl ++ crng (i_ctx st1) /\
+  hist_ok prog /\
+  hist_ok decl /\
+  (decl <> [] ->
+  exists (er : evaluated_row) (outs : list out_entry),
+  get_row G tc fuel st = GRRow er st1 /\
+  er_update_output er = true /\
+  D (i_log st) (RW, er_inputs er) = DrvOk outs /\ length outs = i_nout st).
+Proof. exact history_step_shape. Qed.
+
+(* (the complete case table) *)
+Theorem C17_history_case_table :
+  forall (G : gen) (DE : Type) (D : driver DE) (w_default : bool) (tc : testcase) 
+  (fuel : nat) (st : istate),
+  match inext G DE D w_default tc fuel st with
+  | ItNone _ st' =>
+  get_row G tc fuel st = GRNone st' /\
+  chained G (stmt_trace G fuel st) (crng (i_ctx st)) (crng (i_ctx st'))
+  | ItRow _ _ st' =>
+  exists (er : evaluated_row) (st1 : istate),
+  get_row G tc fuel st = GRRow er st1 /\
+  chained G (stmt_trace G fuel st) (crng (i_ctx st)) (crng (i_ctx st1)) /\
+  (er_update_output er = true /\
+  (exists (outs : list out_entry) (vals : list outval),
+  D (i_log st) (RW, er_inputs er) = DrvOk outs /\
+  length outs = i_nout st /\
+  loop_history G (decl_ctx st1 outs) (decl_table tc st) (crng (i_ctx st1))
+  (Ok vals) (crng (i_ctx st'))) \/
+  er_update_output er = false /\ crng (i_ctx st') = crng (i_ctx st1))
+  | ItErr _ (IE_Driver _) st' =>
+  exists (er : evaluated_row) (st1 : istate),
+  get_row G tc fuel st = GRRow er st1 /\
+  chained G (stmt_trace G fuel st) (crng (i_ctx st)) (crng (i_ctx st1)) /\
+  crng (i_ctx st') = crng (i_ctx st1)
+  | ItErr _ (IE_Runtime r) st' =>
+  (exists x : xerr,
+  r = RT_Expr x /\
+  get_row G tc fuel st = GRErr x st' /\
+  chained G (stmt_trace G fuel st) (crng (i_ctx st)) (crng (i_ctx st')) /\
+  (exists (t1 : list gev) (ev : gev),
+  stmt_trace G fuel st = t1 ++ [ev] /\
+  gev_fails G ev (XFErr x) /\ crng (i_ctx st') = gev_post G ev)) \/
+  (exists (er : evaluated_row) (st1 : istate) (outs : list out_entry),
+  get_row G tc fuel st = GRRow er st1 /\
+  er_update_output er = true /\
+  D (i_log st) (RW, er_inputs er) = DrvOk outs /\
+  chained G (stmt_trace G fuel st) (crng (i_ctx st)) (crng (i_ctx st1)) /\
+  (length outs <> i_nout st /\
+  r = RT_WrongNumberOfOutputs (N.of_nat (i_nout st)) (N.of_nat (length outs)) /\
+  crng (i_ctx st') = crng (i_ctx st1) \/
+  length outs = i_nout st /\
+  loop_history G (decl_ctx st1 outs) (decl_table tc st) (crng (i_ctx st1))
+  (Err r) (crng (i_ctx st'))))
+  | _ => True
+  end.
+Proof. exact history_step. Qed.
+
+(* in every reachable state every bound in the history is (1, n) with n >= 2 and, under the generator's contract, every value ever drawn lies in its range *)
+Theorem C17_every_draw_of_every_run_in_range :
+  forall (G : gen) (DE : Type) (D : driver DE) (w_default : bool) (tc : testcase) (st : istate),
+  reachable G DE D w_default tc st ->
+  hist_ok (crng (i_ctx st)) /\
+  (gen_in_range G ->
+  draws_in_range G (crng (i_ctx st)) /\
+  Forall2 (fun (v : Z) (b : Z * Z) => fst b <= v < snd b /\ 0 <= v) (seg_values G (crng (i_ctx st)) [])
+  (crng (i_ctx st))).
+Proof. exact every_draw_in_range. Qed.
+
+Theorem C17_the_constructor_starts_from_the_empty_history :
+  forall (DE : Type) (D : driver DE) (tc : testcase) (st0 : istate),
+  try_new DE D tc = NewOk DE st0 -> crng (i_ctx st0) = [].
+Proof. exact try_new_history. Qed.
+
+(* replay at run level: two reachable states (of the same or of different runs with the same generator) with equal histories draw the same values for the same expression or data row - so after resetRandom; the run draws again what it drew from the start, as far as the bounds agree *)
+Theorem C17_run_replays_after_reset :
+  forall (G : gen) (DE1 : Type) (D1 : driver DE1) (w1 : bool) (tc1 : testcase) 
+  (DE2 : Type) (D2 : driver DE2) (w2 : bool) (tc2 : testcase) (st1 st2 : istate),
+  reachable G DE1 D1 w1 tc1 st1 ->
+  reachable G DE2 D2 w2 tc2 st2 ->
+  crng (i_ctx st1) = crng (i_ctx st2) ->
+  (forall e : expr,
+  (forall x : name, ctx_get (i_ctx st1) x = ctx_get (i_ctx st2) x) ->
+  snd (ctx_eval G (i_ctx st1) e) = snd (ctx_eval G (i_ctx st2) e) /\
+  crng (fst (ctx_eval G (i_ctx st1) e)) = crng (fst (ctx_eval G (i_ctx st2) e)) /\
+  snd (literalize G (i_ctx st1) e (crng (i_ctx st1))) =
+  snd (literalize G (i_ctx st2) e (crng (i_ctx st2)))) /\
+  (forall d : list dentry,
+  (forall x : name, ctx_get (i_ctx st1) x = ctx_get (i_ctx st2) x) ->
+  snd (row_eval G (i_ctx st1) d) = snd (row_eval G (i_ctx st2) d) /\
+  crng (fst (row_eval G (i_ctx st1) d)) = crng (fst (row_eval G (i_ctx st2) d))) /\
+  (forall (e1 e2 : expr) (l1 l2 : list (Z * Z)),
+  snd (eval G (i_ctx st1) e1 (crng (i_ctx st1))) = l1 ++ crng (i_ctx st1) ->
+  snd (eval G (i_ctx st2) e2 (crng (i_ctx st2))) = l2 ++ crng (i_ctx st2) ->
+  map snd (rev l1) = map snd (rev l2) ->
+  snd (literalize G (i_ctx st1) e1 (crng (i_ctx st1))) =
+  snd (literalize G (i_ctx st2) e2 (crng (i_ctx st2)))).
+Proof. exact run_replays_after_reset. Qed.
+
+Theorem C17_drawn_since_reset_replay :
+  forall (G : gen) (DE : Type) (D : driver DE) (w_default : bool) (tc : testcase) (st : istate),
+  reachable G DE D w_default tc st ->
+  values_of G (crng (i_ctx st)) = draws G [] (bounds_of (crng (i_ctx st))).
+Proof. exact drawn_since_reset_replay. Qed.
+
+(* an evaluation error does not roll the generator back: the draws made before the failure stay *)
+Theorem C17_error_items_keep_their_draws :
+  forall (G : gen) (DE : Type) (D : driver DE) (w_default : bool) (tc : testcase) 
+  (fuel : nat) (st : istate) (x : xerr) (st1 : istate),
+  get_row G tc fuel st = GRErr x st1 ->
+  inext G DE D w_default tc fuel st = ItErr DE (IE_Runtime (RT_Expr x)) st1 /\
+  i_log st1 = i_log st /\
+  (exists (t1 : list gev) (ev : gev),
+  stmt_trace G fuel st = t1 ++ [ev] /\
+  gev_fails G ev (XFErr x) /\
+  chained G t1 (crng (i_ctx st)) (gev_pre ev) /\
+  crng (i_ctx st1) = gev_post G ev /\
+  grows (gev_pre ev) (crng (i_ctx st1)) /\
+  grows (if trace_resets t1 then [] else crng (i_ctx st)) (gev_pre ev)).
+Proof. exact error_items_before_the_call_draw_what_was_evaluated. Qed.
+
+(* an answer refused for its order evaluates no declared signal of a bound test (they come after all device outputs) *)
+Theorem C17_wrong_order_draws_nothing :
+  forall (G : gen) (DE : Type) (D : driver DE) (w_default : bool) (p : parsed) 
+  (sigs0 : list signal) (tc : testcase) (fuel : nat) (st st' : istate),
+  with_signals p sigs0 = Ok tc ->
+  Forall (fun s : signal => is_virtual s = false) sigs0 ->
+  reachable G DE D w_default tc st ->
+  inext G DE D w_default tc fuel st = ItErr DE (IE_Runtime RT_WrongOutputOrder) st' ->
+  exists (er : evaluated_row) (st1 : istate),
+  get_row G tc fuel st = GRRow er st1 /\ crng (i_ctx st') = crng (i_ctx st1).
+Proof. exact wrong_order_draws_nothing_when_bound. Qed.
+
+
+
 Check C17_in_range.
 Example C17_example : gen_in_range (fun _ r => fst r) /\
   eval (fun _ r => fst r) (ctx_new []) (EFunc name_random [ENum 10]) [] = (Ok 1, [(1, 10)]).
@@ -94,3 +238,7 @@ Print Assumptions C17_history_only_grows.
 Print Assumptions C17_as_if_literals.
 Print Assumptions C17_replay_after_reset.
 Print Assumptions C17_row_as_if_literals.
+Print Assumptions C17_history_of_every_call.
+Print Assumptions C17_every_draw_of_every_run_in_range.
+Print Assumptions C17_run_replays_after_reset.
+Print Assumptions C17_error_items_keep_their_draws.
